@@ -300,6 +300,79 @@ func c20TokenizeReported(gp *GenParser, text string) (toks, ign string, ok bool)
 	return toks, strings.Join(iparts, "|"), true
 }
 
+// c20DeclTM: a list of declarations `'a' 'b'^depth ['c']` in which the tail of a TYPED rule is a chain of
+// helper nonterminals (randomly untyped: no arrow, no action) ending in a nullable Tail; optionally a
+// recovery alternative `'a' Problem; Problem: error` (the error is inserted empty when an 'a' follows).
+func c20DeclTM(r *rand.Rand, name string, depth int, recovering, optimize bool) string {
+	var sb strings.Builder
+	fmt.Fprintf(&sb, "language %s(go);\n\nlang = %q\npackage = \"gp/%s\"\neventBased = true\nfixWhitespace = true\n", name, name, name)
+	if optimize {
+		sb.WriteString("optimizeTables = true\n")
+	}
+	sb.WriteString("\n::lexer\n\nWhiteSpace: /[ ]+/ (space)\nComment: /#[0-9]*#/ (space)\n'a': /a/\n'b': /b/\n'c': /c/\n")
+	if recovering {
+		sb.WriteString("error:\n")
+	}
+	sb.WriteString("invalid_token:\n\n::parser\n\n%input Z;\n\n%inject Comment -> Comment;\n%inject invalid_token -> InvalidToken;\n\n")
+	arrow := func(n string, p int) string {
+		if r.Intn(p) == 0 {
+			return " -> " + n
+		}
+		return ""
+	}
+	sb.WriteString("Z -> Z :\n    Decl\n  | Z Decl\n;\n")
+	sb.WriteString("Decl -> Decl :\n    'a' H1\n")
+	if recovering {
+		sb.WriteString("  | 'a' Problem\n")
+	}
+	sb.WriteString(";\n")
+	for k := 1; k <= depth; k++ {
+		next := fmt.Sprintf("H%d", k+1)
+		if k == depth {
+			next = "Tail"
+		}
+		fmt.Fprintf(&sb, "H%d%s :\n    'b' %s\n;\n", k, arrow(fmt.Sprintf("H%d", k), 4), next)
+	}
+	fmt.Fprintf(&sb, "Tail%s :\n    %%empty\n  | 'c'\n;\n", arrow("Tail", 3))
+	if recovering {
+		fmt.Fprintf(&sb, "Problem%s :\n    error\n;\n", arrow("Problem", 2))
+	}
+	return sb.String()
+}
+
+// c20DeclText: declarations (some broken when the grammar recovers), comments mostly right behind a
+// declaration, i.e. between its last token and the next 'a'.
+func c20DeclText(r *rand.Rand, depth int, recovering bool) string {
+	var sb strings.Builder
+	for n := 1 + r.Intn(4); n > 0; n-- {
+		d := "a" + strings.Repeat("b", depth)
+		if r.Intn(2) == 0 {
+			d += "c"
+		}
+		if recovering && r.Intn(3) == 0 {
+			d = d[:1+r.Intn(len(d))] // cut: the error is inserted in front of the next 'a'
+		} else if r.Intn(10) == 0 {
+			d = d[:r.Intn(len(d)+1)]
+		}
+		for i := 0; i < len(d); i++ {
+			sb.WriteByte(d[i])
+			if r.Intn(3) == 0 {
+				sb.WriteString(" ")
+			}
+			if r.Intn(8) == 0 {
+				fmt.Fprintf(&sb, "#%s#", strings.Repeat("3", r.Intn(4)))
+			}
+		}
+		if r.Intn(3) != 0 {
+			fmt.Fprintf(&sb, " #%s# ", strings.Repeat("5", r.Intn(6)))
+		}
+		if r.Intn(12) == 0 {
+			sb.WriteString("%")
+		}
+	}
+	return sb.String()
+}
+
 // c20GeneratedReported: generated parsers that REPORT skipped tokens (comment and invalid_token
 // injected into the stream) and trim trailing whitespace; every text is parsed by a fresh Parser and
 // by a Parser that has parsed a (mostly broken) other text before.
@@ -314,24 +387,54 @@ func c20GeneratedReported(c *Ctx) {
 			return
 		}
 		type item struct {
-			g  *Gram
-			gp *GenParser
+			g     *Gram // nil: declaration family
+			depth int
+			gp    *GenParser
 		}
 		var items []item
 		for k := 0; k < batchSize && done+k < nG; k++ {
+			name := fmt.Sprintf("q%d", done+k)
+			if k%2 == 1 {
+				// declaration family: untyped helper chains below a typed rule, optional recovery
+				depth := 1 + c.Rng.Intn(3)
+				rec := c.Rng.Intn(2) == 0
+				o := TMOpts{Optimize: c.Rng.Intn(3) == 0, Space: true, FixWhitespace: true, Recovering: rec, Extra: "reported"}
+				gp := compileTM(name, c20DeclTM(c.Rng, name, depth, rec, o.Optimize), o)
+				if gp.Err != nil {
+					c.Violate("C20 harness: declaration-family grammar rejected: "+errSummary(gp.Err), gp.TM)
+					continue
+				}
+				b.Add(gp)
+				items = append(items, item{nil, depth, gp})
+				continue
+			}
 			g := genConflictFree(c, cfg, true)
 			if g == nil {
 				continue
 			}
 			o := TMOpts{Optimize: c.Rng.Intn(3) == 0, Space: true, FixWhitespace: true, Extra: "reported"}
-			name := fmt.Sprintf("q%d", done+k)
-			gp := compileTM(name, c20TM(c.Rng, g, name, o), o)
-			if gp.Err != nil {
-				c.Count("generated reported: grammar rejected: " + firstWords(errSummary(gp.Err), 6))
+			o.Recovering = c.Rng.Intn(3) == 0
+			var gp *GenParser
+			for tries := 0; tries < 4 && gp == nil; tries++ {
+				gg := g
+				if o.Recovering {
+					gg = addErrorRules(c, g)
+				}
+				p := compileTM(name, c20TM(c.Rng, gg, name, o), o)
+				if p.Err != nil {
+					c.Count("generated reported: grammar rejected: " + firstWords(errSummary(p.Err), 6))
+					continue
+				}
+				if o.Recovering && !p.G.Parser.IsRecovering {
+					continue
+				}
+				gp = p
+			}
+			if gp == nil {
 				continue
 			}
 			b.Add(gp)
-			items = append(items, item{g, gp})
+			items = append(items, item{g, 0, gp})
 		}
 		if len(items) == 0 {
 			b.Close()
@@ -345,6 +448,19 @@ func c20GeneratedReported(c *Ctx) {
 		var reqs []RunReq
 		var metas []item
 		for _, it := range items {
+			if it.g == nil {
+				rec := it.gp.G.Parser.IsRecovering
+				for n := 0; n < 60; n++ {
+					text := c20DeclText(c.Rng, it.depth, rec)
+					prev := c20DeclText(c.Rng, it.depth, true) + fmt.Sprintf(" #%s# ", strings.Repeat("1", c.Rng.Intn(10)))
+					if c.Rng.Intn(2) == 0 {
+						prev += "c"
+					}
+					reqs = append(reqs, RunReq{Parser: it.gp.Name, Input: 0, Text: text}, RunReq{Parser: it.gp.Name, Input: 0, Text: text, Prev: prev})
+					metas = append(metas, it, it)
+				}
+				continue
+			}
 			in := it.g.Inputs[0]
 			ws := sampleWords(c, it.g, in.Sym, 3, 8)
 			for _, w := range ws {
@@ -384,16 +500,27 @@ func c20GeneratedReported(c *Ctx) {
 					c.Violate("generated parser (reported skipped tokens, fixWhitespace; "+who+"): "+msg+"; trace "+out, desc)
 				}
 			}
-			if strings.HasSuffix(fresh, "ok") {
-				c.Count("generated reported+fixWhitespace: accepted")
-			} else {
-				c.Count("generated reported+fixWhitespace: syntax error")
+			fam := "generated reported+fixWhitespace"
+			if metas[i].g == nil {
+				fam += " (declarations, untyped helpers)"
+			}
+			_, handler := c20TraceEvents(fresh)
+			switch {
+			case handler && strings.HasSuffix(fresh, "ok"):
+				c.Count(fam + ": syntax error recovered")
+			case strings.HasSuffix(fresh, "ok"):
+				c.Count(fam + ": accepted")
+			default:
+				c.Count(fam + ": syntax error")
 			}
 			if fresh != reused {
 				c.Violate(fmt.Sprintf("state leaks between parses: a generated Parser that parsed %q before reports %q, a fresh Parser reports %q", reqs[i+1].Prev, reused, fresh), desc)
 			}
 			// replay by the layered Lean model (pending / flush), for the fresh and for the reused Parser
 			// (the model starts every parse with empty pending tokens, as parse() does)
+			if gp.G.Parser.IsRecovering {
+				continue // the layered model has no recovery; the direct check above applies
+			}
 			if toks, ign, ok := c20TokenizeReported(gp, text); ok {
 				t := gp.G.Parser.Tables
 				args := fmt.Sprintf("%s %s %s 0 %s %s %d", tablesStr(t, gp.G.Parser.NumTerminals), b2s(t.Optimized != nil), xinfoStr(gp), toks, ign, len(text))
